@@ -14,6 +14,8 @@ type WhopLoc struct {
 	// primary method is running instead of a wrapper. The next method is
 	// then the next primary.
 	Primary bool
+	// Args are the arguments the running method was called with.
+	Args List
 }
 
 // String representation of the Object.
@@ -58,7 +60,7 @@ func (wl *WhopLoc) Continue(s *Scope, args List, depth int) Object {
 			continue
 		}
 		ws := s.NewScope()
-		ws.Let("~whopper-location~", &WhopLoc{Method: wl.Method, Current: i})
+		ws.Let("~whopper-location~", &WhopLoc{Method: wl.Method, Current: i, Args: args})
 		if lam, ok := wrap.(*Lambda); ok {
 			lam.Closure = ws
 		}
